@@ -143,15 +143,15 @@ def ref_fd(t, ax, mode, h):
 
 
 def ref_avg(t, ax, k):
+    """3-tap smoothing with replicated boundary values"""
     n = t.shape[ax]
-    z = torch.zeros_like(t.narrow(ax, 0, 1))
-    p = torch.cat([z, t, z], ax)
+    p = torch.cat([t.narrow(ax, 0, 1), t, t.narrow(ax, n - 1, 1)], ax)
     return k[0] * p.narrow(ax, 0, n) + k[1] * p.narrow(ax, 1, n) + k[2] * p.narrow(ax, 2, n)
 
 
 def ref_deriv(t, code, mode, sp):
     """t: tensor of spatial shape (.., Y, X); documented operator: prewitt = [1,1,1]/3, sobel = [1,2,1]/4 smoothing of the
-    other axes (zero padded, as implemented), then forward_central_backward differences"""
+    other axes (replicate padded), then forward_central_backward differences"""
     D = t.ndim
     cur = t
     for letter in sorted(code):
@@ -217,6 +217,31 @@ def oracle(p):
         if form == "batch-iso":
             return [[r[0]] for r in spv], [[r[0]] * D for r in spv]
         return [list(r) for r in spv], spv  # batch
+
+    # --- core.image.conv1d with padding modes (used by the prewitt / sobel cross-axis smoothing): same-size correlation with
+    #     zero / replicated / reflected boundary values, along every tensor axis
+    if p.get("stage", "all") in ("all", "edge"):
+        import torch.nn.functional as TF
+        from deepali.core.image import conv1d as d_conv1d
+        from deepali.core.enum import PaddingMode
+        for pm, tmode in ((PaddingMode.REPLICATE, "replicate"), (PaddingMode.REFLECT, "reflect"), (PaddingMode.ZEROS, "constant")):
+            for shape, dim in (((2, 1, 7), 2), ((1, 2, 5, 6), 3), ((1, 1, 6, 4), 2), ((1, 1, 4, 5, 6), 3)):
+                for K_ in (3, 5):
+                    bump(f"conv1d:{pm.value}")
+                    try:
+                        x_ = torch.tensor([dy(rng, 3) for _ in range(math.prod(shape))], dtype=torch.float64).reshape(shape)
+                        k_ = torch.tensor([dy(rng, 3) for _ in range(K_)], dtype=torch.float64)
+                        got = d_conv1d(x_, k_, dim=dim, padding=pm)
+                        xm = x_.movedim(dim, -1)
+                        flat = xm.reshape(-1, 1, xm.shape[-1])
+                        padded = TF.pad(flat, (K_ // 2, K_ // 2), mode=tmode)
+                        want = TF.conv1d(padded, k_.reshape(1, 1, -1)).reshape(xm.shape).movedim(-1, dim)
+                        if tuple(got.shape) != tuple(x_.shape) or float((got - want).abs().max()) > 1e-9:
+                            fail(f"C12:conv1d:padding-mode:{pm.value}", f"conv1d(shape {shape}, dim={dim}, kernel size {K_}, padding={pm}) differs from the "
+                                 f"{tmode}-padded correlation", shape=list(shape), dim=dim)
+                    except Exception as e:  # noqa
+                        fail(f"C12:conv1d:padding-mode:{pm.value}:raises", f"conv1d(shape {shape}, dim={dim}, kernel size {K_}, padding={pm}): "
+                             f"{type(e).__name__}: {str(e)[:120]}", shape=list(shape), dim=dim)
 
     # --- every mode (including 'gaussian' and 'bspline'): the divisor of d/dx_a is the spacing of axis a -- explicit anisotropic
     #     spacing (per axis, per batch item) and the default spacing of flow_derivatives (2 / (n - 1) per axis)
@@ -297,7 +322,8 @@ def oracle(p):
                         u = torch.stack([affine_field(A[b], [0.5] * D, coords(shape_t, spv[b])) for b in range(N)], 0)
                         for sd in range(D):
                             # region: all indices along sd, interior along every other axis; must contain both ends along sd
-                            reg = exact_mask(mode, shape_t, [sd], True)
+                            reg = exact_mask(mode, shape_t, [sd], False)  # every grid point (forward_central_backward differences)
+                            assert bool(reg.all())
                             ends = torch.zeros(shape_t, dtype=torch.bool)
                             sl0 = [slice(1, -1)] * D
                             sl0[D - 1 - sd] = 0
@@ -383,8 +409,8 @@ def oracle(p):
         chans = "uvw"[:D]
         tol = 1e-9
         all_dims = list(range(D))
-        M_in = exact_mask(mode, shape_t, all_dims, True)           # where the statement certainly applies
-        M_all = exact_mask(mode, shape_t, all_dims, False)          # where the property text demands exactness
+        M_all = exact_mask(mode, shape_t, all_dims, False)          # every point the difference scheme supports along all axes
+        M_in = M_all                                                # (prewitt / sobel smooth with replicate padding: exact there too)
         bump(f"affine:{mode}:D{D}:{form}")
         try:
             # --- Jacobian entries
@@ -409,7 +435,7 @@ def oracle(p):
             elif worst_all > tol:
                 fail(f"C12:spatial_derivatives:{mode}:boundary-not-exact",
                      f"{desc}: derivative of an affine field is off by {worst_all:.3g} at grid points on the boundary of the *other* axes "
-                     f"(zero-padded smoothing)", case=desc, A=A)
+                     f"(the cross-axis smoothing must replicate boundary values)", case=desc, A=A)
             # --- determinant, divergence, curl, Lie bracket at the points where all first derivatives are exact
             for ident in (False, True):
                 det = FL.jacobian_det(u, add_identity=ident, **kw)
